@@ -281,6 +281,9 @@ func (vc *FnVC) applyContract(con *Contract, desc, wit string, callee *ssa.Funct
 	}
 	if con != nil {
 		for _, en := range con.Ensures {
+			if mentionsWitness(en.Expr) {
+				continue // a clause over the callee's own call sites: an obligation of the callee, not a fact for callers
+			}
 			t := env.boolExpr(en.Expr)
 			vc.flushSide(env)
 			vc.assume(t)
@@ -806,4 +809,65 @@ func fnPkgPath(f *ssa.Function) string {
 		}
 	}
 	return ""
+}
+
+// registerWitnessSig registers the ghost variable of witness field `field` of call site `wit` (name#k) before the call
+// has been lowered on the current path, from the signature of any call site with that witness name.
+func (vc *FnVC) registerWitnessSig(wit, field string) bool {
+	base := wit
+	if i := strings.Index(wit, "#"); i >= 0 {
+		base = wit[:i]
+	}
+	for _, b := range vc.fn.Blocks {
+		for _, ins := range b.Instrs {
+			ci, ok := ins.(ssa.CallInstruction)
+			if !ok {
+				continue
+			}
+			c := ci.Common()
+			if _, isB := c.Value.(*ssa.Builtin); isB {
+				continue
+			}
+			if witnessName(c) != base {
+				continue
+			}
+			var argTs []types.Type
+			if c.IsInvoke() {
+				argTs = append(argTs, c.Value.Type())
+			}
+			for _, a := range c.Args {
+				argTs = append(argTs, a.Type())
+			}
+			sig := c.Signature()
+			key := "W$" + wit + "$" + field
+			reg := func(t types.Type) bool {
+				vc.registerKey(key, vc.sorts.sortOf(t))
+				vc.eng.witTypes[vc.key+"|"+key] = t
+				return true
+			}
+			var n int
+			if _, err := fmt.Sscanf(field, "arg%d", &n); err == nil && n < len(argTs) {
+				return reg(argTs[n])
+			}
+			if _, err := fmt.Sscanf(field, "r%d", &n); err == nil && n < sig.Results().Len() {
+				return reg(sig.Results().At(n).Type())
+			}
+		}
+	}
+	return false
+}
+
+func mentionsWitness(e *SpecExpr) bool {
+	if e == nil {
+		return false
+	}
+	if e.Op == "wit" {
+		return true
+	}
+	for _, a := range e.Args {
+		if mentionsWitness(a) {
+			return true
+		}
+	}
+	return false
 }
